@@ -49,7 +49,15 @@ node: Nodes of terminated instances now linger for a few reconciles), C12-3 (fle
 groups: `scan-aborted:` check under C12 and the fatal key now carries the failure streak of the group, so that the known
 escape hatch at three failures does not mask an exit at one or two).
 
-After that all eighty are caught by the quick check of the property they were written against.
+A third, small round asked three agents for the failure classes this technique family is specifically about: writing into
+lister-owned objects (`C15-5`, `C15-6`: both caught by the cache-immutability monitor), scans that never return (`C20-5`
+a goroutine deadlock - the fake-time runtime reports "all goroutines are asleep" and the child dies; `C20-6` an unbounded
+retry loop - the child runs into the wall-clock limit, the case is re-run alone and dies again: reported in 9 minutes),
+and unsafe concurrency (`C20-7` a fire-and-forget goroutine: the Go race detector reports the race under C15 and the
+virtual-time child dies under C20; `C20-8` RunForever returning while a scan is still in flight: missed at first, the race
+workload now counts API calls arriving after the loop returned).
+
+After that all eighty-six are caught by the quick check of the property they were written against.
 
 | Seeded change | Files | What was changed | Needs, to manifest | Quick check of that property |
 |---|---|---|---|---|
